@@ -42,8 +42,8 @@ static bool protect_library_data(bool on) {
 
 static inline uint64_t now_ns() { struct timespec ts; clock_gettime(CLOCK_MONOTONIC, &ts); return (uint64_t)ts.tv_sec * 1000000000ull + (uint64_t)ts.tv_nsec; }
 
-enum Op { O_ADDBASE, O_REMOVEBASE, O_EQUALS, O_TOSTRING, O_MASKREQ, O_PARSE_NORM, O_COMPOSE, O_DISSECT, O_ESCAPE, O_FILE, O_IP4, O_PARSE_OWNER, O_NOPS };
-static const char* const OPN[] = {"addBase", "removeBase", "equals", "toString", "maskRequired", "parse+normalize", "composeQuery", "dissectQuery", "escape", "filename", "ip4", "parse+makeOwner"};
+enum Op { O_ADDBASE, O_REMOVEBASE, O_EQUALS, O_TOSTRING, O_MASKREQ, O_PARSE_NORM, O_COMPOSE, O_DISSECT, O_ESCAPE, O_FILE, O_IP4, O_PARSE_OWNER, O_PARSE_TEXT, O_NOPS };
+static const char* const OPN[] = {"addBase", "removeBase", "equals", "toString", "maskRequired", "parse+normalize", "composeQuery", "dissectQuery", "escape", "filename", "ip4", "parse+makeOwner", "parse(errorPos=NULL)"};
 
 struct Rec { uint64_t t0, t1; uint16_t op; uint16_t i, j; uint32_t arg; uint64_t result; };
 
@@ -154,6 +154,9 @@ template <class X> uint64_t do_call(Shared<X>& sh, int op, unsigned i, unsigned 
     case O_ESCAPE: { SV s = S(i); std::vector<Char> o(6 * s.size() + 1); Char* e = X::EscapeEx(s.data(), s.data() + s.size(), o.data(), arg & 1, (arg >> 1) & 1); out = narrow<X>(o.data(), e); const Char* e2 = X::UnescapeInPlaceEx(o.data(), arg & 1, (UriBreakConversion)((arg >> 2) & 3)); out += '|'; out += narrow<X>(o.data(), e2); break; }
     case O_FILE: { SV s = S(i); std::vector<Char> o(8 + 3 * s.size() + 1), b(8 + 3 * s.size() + 4); int rc = (arg & 1) ? X::UnixFilenameToUriString(s.c_str(), o.data()) : X::WindowsFilenameToUriString(s.c_str(), o.data()); int r2 = (arg & 1) ? X::UriStringToUnixFilename(o.data(), b.data()) : X::UriStringToWindowsFilename(o.data(), b.data());
         out = fmt("%d:%d:", rc, r2) + narrow<X>(o.data(), o.data() + xstrlen<X>(o.data())) + "|" + narrow<X>(b.data(), b.data() + xstrlen<X>(b.data())); break; }
+    case O_PARSE_TEXT: {   // arbitrary shared text (mostly not a URI: the failing exits), optional error position absent
+        SV s = S(i); Uri u; int rc = (arg & 1) ? X::ParseSingleUriEx(&u, s.data(), s.data() + s.size(), nullptr) : mm ? X::ParseSingleUriExMm(&u, s.data(), s.data() + s.size(), nullptr, mm) : X::ParseSingleUri(&u, s.c_str(), nullptr);
+        out = fmt("%d", rc); if (rc == 0) { out += text_of(u); } if (mm && !(arg & 1)) X::FreeUriMembersMm(&u, mm); else X::FreeUriMembers(&u); break; }
     default: { SV s = S(i); unsigned char oct[4] = {0, 0, 0, 0}; int rc = X::ParseIpFourAddress(oct, s.data(), s.data() + s.size()); out = fmt("%d:%u.%u.%u.%u", rc, oct[0], oct[1], oct[2], oct[3]); break; }
     }
     return hash_str(out);
